@@ -63,6 +63,12 @@ func Catalogue(syntax string) []Dev {
 		o := o
 		add("f1.opts", o.Name+":"+o.Value, func(ws *WS) { F(ws, "f1").Opts = append(F(ws, "f1").Opts, o) })
 	}
+	add("f1.opts", "targets-twice", func(ws *WS) {
+		F(ws, "f1").Opts = append(F(ws, "f1").Opts, Option{"targets", "TARGET_TYPE_FIELD"}, Option{"targets", "TARGET_TYPE_ENUM_ENTRY"})
+	})
+	add("f1.opts", "targets+deprecated", func(ws *WS) {
+		F(ws, "f1").Opts = append(F(ws, "f1").Opts, Option{"deprecated", "true"}, Option{"targets", "TARGET_TYPE_FIELD"})
+	})
 	add("f1.opts", "deprecated-twice", func(ws *WS) {
 		F(ws, "f1").Opts = append(F(ws, "f1").Opts, Option{"deprecated", "true"}, Option{"deprecated", "false"})
 	})
@@ -262,7 +268,7 @@ func Catalogue(syntax string) []Dev {
 	add("imports", "self", func(ws *WS) { ws.Main().Imports = append(ws.Main().Imports, Import{"main.proto", ""}) })
 	add("dep.imports", "pub-not-public", func(ws *WS) { ws.File("dep.proto").Imports[0].Kind = "" })
 	// package of main
-	for _, p := range []string{"a.b", "x", "", "a.b.D", "a.b.E", "a", "a.b.c.M"} {
+	for _, p := range []string{"a.b", "x", "", "a.b.D", "a.b.E", "a", "a.b.c.M", "a.b.a", "a.a", "a.bb", "ab.c", "b.a.b"} {
 		p := p
 		add("package", "'"+p+"'", func(ws *WS) { ws.Main().Package = p })
 	}
@@ -317,6 +323,12 @@ func Catalogue(syntax string) []Dev {
 	add("sibling", "nested-message-named-a", func(ws *WS) {
 		M(ws).Body = append(M(ws).Body, &Msg{Name: "a", Body: []any{f(lab, "int32", "q", 1)}}, f(lab, "a.b.D", "fa", 8))
 	})
+	add("sibling", "nested-message-named-a-unused", func(ws *WS) { M(ws).Body = append(M(ws).Body, &Msg{Name: "a"}) })
+	add("sibling", "nested-enum-named-a-unused", func(ws *WS) {
+		M(ws).Body = append(M(ws).Body, &Enum{Name: "a", Body: []any{&EnumVal{Name: "A0", Number: 0}}})
+	})
+	add("sibling", "top-level-message-named-a", func(ws *WS) { ws.Main().Decls = append(ws.Main().Decls, &Msg{Name: "a"}) })
+	add("sibling", "inner-message-named-M", func(ws *WS) { ws.AInner.Body = append(ws.AInner.Body, &Msg{Name: "M"}, f(lab, "M", "im", 7)) })
 	add("sibling", "extension-in-M-named-like-field-D", func(ws *WS) {
 		if syntax == "proto3" {
 			return
@@ -398,6 +410,12 @@ extend google.protobuf.ExtensionRangeOptions { optional int32 ero = 50001; }
 		S(ws).Methods[0].Opts = append(S(ws).Methods[0].Opts, Option{"(o.mto)", "2"}, Option{"(o.mtm).m.a", "3"})
 	})
 	if syntax != "proto3" {
+		withOpt("extension-ranges-standard-then-custom", func(ws *WS) {
+			M(ws).Body = append(M(ws).Body, &ExtRange{Ranges: [][2]int64{{500, 600}, {700, 800}}, Opts: []Option{{"verification", "UNVERIFIED"}, {"(o.ero)", "1"}}})
+		})
+		withOpt("extension-ranges-custom-then-standard", func(ws *WS) {
+			M(ws).Body = append(M(ws).Body, &ExtRange{Ranges: [][2]int64{{500, 600}, {700, 800}, {900, 901}}, Opts: []Option{{"(o.ero)", "1"}, {"verification", "UNVERIFIED"}}})
+		})
 		withOpt("extension-range", func(ws *WS) {
 			M(ws).Body = append(M(ws).Body, &ExtRange{Ranges: [][2]int64{{500, 600}}, Opts: []Option{{"(o.ero)", "1"}}})
 		})
